@@ -14,6 +14,8 @@ pub struct MarkdownEventsReader {
     blocks_stack: Vec<DocumentBlock>,
     blocks: DocumentBlocks,
     line_starts: Vec<usize>,
+    /// length of the text if it does not end with a line terminator
+    open_end: Option<usize>,
     content: String,
     metadata_block: bool,
     metadata: Option<String>,
@@ -27,6 +29,7 @@ impl MarkdownEventsReader {
             blocks_stack: Vec::new(),
             blocks: Vec::new(),
             line_starts: Vec::new(),
+            open_end: None,
             content: String::new(),
             metadata_block: false,
             metadata: None,
@@ -54,6 +57,7 @@ impl MarkdownEventsReader {
         )
         .into_offset_iter();
         self.line_starts = line_starts(content);
+        self.open_end = Some(content.len()).filter(|_| !content.is_empty() && !content.ends_with('\n'));
         self.content = content.to_string();
 
         while let Some((event, range)) = iter.next() {
@@ -409,6 +413,10 @@ impl MarkdownEventsReader {
         }
 
         if start == end {
+            end += 1;
+        } else if self.open_end.map_or(false, |len| range.end >= len) {
+            // a block that runs to the end of a text without a final newline: its last
+            // line has no terminator, but it is a line of the block
             end += 1;
         }
 
